@@ -205,8 +205,25 @@ pub fn check_sinks_and_moves(h: &History, tmpdir: &str, obs: &mut Obs) -> Vec<Vi
         let runs = std::thread::scope(|sc| {
             sc.spawn(|| {
                 let mut runs = Vec::new();
-                for k in [0usize, 1, 2, 3, 6, usize::MAX, usize::MAX - 1, usize::MAX - 2] {
-                    if k == usize::MAX - 2 {
+                for k in [0usize, 1, 2, 3, 6, usize::MAX, usize::MAX - 1, usize::MAX - 2, usize::MAX - 3] {
+                    if k == usize::MAX - 3 {
+                        // a COMPLETED earlier recording of the same codec, fed through the
+                        // convenience calls, with several key frames that each carry OTHER
+                        // parameter sets / headers (whatever a probe or cache kept of them must
+                        // not reach the next muxer)
+                        let mut r = crate::util::Rng::new(h.hash() ^ 0x5eed_c17);
+                        let mut cfg = h.cfg.clone();
+                        cfg.audio = None;
+                        cfg.meta = false;
+                        let mut ops = Vec::new();
+                        for i in 0..4 {
+                            let kind = if i == 2 { crate::gen::frames::FrameKind::Delta } else { crate::gen::frames::FrameKind::KeyCfg };
+                            ops.push(Op::EncodeVideo { data: crate::gen::frames::video_frame(&mut r, cfg.vcodec, kind, 12, false), dur_ms: 40 });
+                        }
+                        ops.push(Op::Finish(FinishKind::InPlace));
+                        let other = History { cfg, ops };
+                        let _ = run_on(Vec::<u8>::new(), &other, &ExecOpts::default(), &no_seq);
+                    } else if k == usize::MAX - 2 {
                         // an earlier muxer whose SINK panicked in the middle of finish (caught by
                         // the caller, as a supervisor thread would)
                         struct PanicSink(usize);
@@ -280,6 +297,55 @@ pub fn check_sinks_and_moves(h: &History, tmpdir: &str, obs: &mut Obs) -> Vec<Vi
 }
 
 /// (d) equivalent API paths.
+/// Builder aliases and option order on the fragmented path: `video` vs `set_video_track`,
+/// parameter sets before vs after the track call, a decoy track call first. All must give the
+/// same build result, init segment and media segments.
+pub fn check_frag_builder_paths(seed: u64, obs: &mut Obs) -> Vec<Violation> {
+    use crate::gen::frag::{gen_frag_cfg, FragOpts};
+    let mut out = Vec::new();
+    let mut r = crate::util::Rng::new(seed ^ 0xF4A6_C17);
+    let (mut cfg, _) = gen_frag_cfg(&mut r, &FragOpts::default());
+    cfg.via_builder = true;
+    cfg.timescale = 90_000;
+    cfg.fragment_duration_ms = 2000;
+    cfg.path = 0;
+    if r.chance(1, 6) {
+        // one required parameter missing: every path must refuse alike
+        match cfg.vcodec {
+            H264 => cfg.pps = None,
+            H265 => cfg.vps = None,
+            AV1 => cfg.av1_seq = None,
+            _ => cfg.vp9 = None,
+        }
+    }
+    let ops = vec![
+        FOp::Init,
+        FOp::Write { pts: 0, dts: 0, data: r.bytes(9), sync: true },
+        FOp::Write { pts: 6000, dts: 3000, data: r.bytes(5), sync: false },
+        FOp::Flush,
+        FOp::Init,
+    ];
+    let base = crate::exec::run_frag(&FHistory { cfg: cfg.clone(), ops: ops.clone() }, &ExecOpts::default());
+    if matches!(base.build, Res::Panic { .. }) || base.results.iter().any(|x| matches!(x, FRes::Panic { .. })) {
+        obs.inconclusive += 1;
+        return out;
+    }
+    for path in 1u8..8 {
+        let mut c2 = cfg.clone();
+        c2.path = path;
+        let ex = crate::exec::run_frag(&FHistory { cfg: c2, ops: ops.clone() }, &ExecOpts::default());
+        obs.count("fragment_builder_path_pairs", 1);
+        if ex.build != base.build || ex.results != base.results {
+            out.push(v(
+                format!("fragment-builder-path-differs|bits={}", path),
+                format!("codec {} via builder: path bits {} (1 = set_video_track, 2 = parameters before the track, 4 = decoy track call first) gives build {} / results that differ from the plain order (build {})", cfg.vcodec, path, ex.build.brief(), base.build.brief()),
+            ));
+            break;
+        }
+    }
+    out
+}
+
 pub fn check_paths(h: &History, obs: &mut Obs) -> Vec<Violation> {
     let mut out = Vec::new();
     let r = reference(h);
@@ -288,7 +354,7 @@ pub fn check_paths(h: &History, obs: &mut Obs) -> Vec<Violation> {
         return out;
     }
     // builder aliases
-    for bits in [1u8, 2, 4, 7, 8, 11, 12, 16, 24] {
+    for bits in [1u8, 2, 4, 7, 8, 11, 12, 16, 24, 32, 40] {
         let mut h2 = h.clone();
         h2.cfg.path ^= bits;
         // path bit 4 moves creation time / language to the builder setters: same metadata only if
